@@ -13,6 +13,8 @@ import (
 	"os"
 	"path/filepath"
 	"regexp/syntax"
+
+	"golang.org/x/tools/go/ssa"
 	"sort"
 	"strconv"
 	"strings"
@@ -298,6 +300,7 @@ func runRX(c *Ctx) (obls []Obl) {
 	c.stat("RX", "models", len(refs.Models))
 	rxStatus(c, a, parsers)
 	rxElided(c, a)
+	rxAnchor(c, a)
 	return
 }
 
@@ -683,4 +686,115 @@ func rxElided(c *Ctx, a *flAgg) {
 			a.bad("RX-elided", "only-markers", "isFramesElidedLine accepts lines that are not elided-frames markers (the wording tests were widened): ordinary text after a frame is swallowed into the dump", fn.Pos())
 		}
 	}
+}
+
+// rxAnchor (RX-anchor): every line pattern the scanner applies describes the
+// whole line: it begins with ^ and ends with $ in every alternative. Dropping
+// the $ keeps every printed line accepted (RX-model is an inclusion) but
+// lets a line with arbitrary text behind a header, a frame or a file
+// reference count as part of a dump: ordinary output is swallowed and
+// parsed as a goroutine or a frame.
+var rxAnchorExempt = map[string]string{
+	"reUnavail": "open at the end on the pinned tree: the message is only a prefix test and captures nothing",
+}
+
+func rxAnchor(c *Ctx, a *flAgg) {
+	scan := c.L.Func("stack", "scanningState", "scan")
+	if scan == nil {
+		a.und("RX-anchor", "scan", "scan not found", token.NoPos)
+		return
+	}
+	// regexp globals loaded in functions reachable from scan inside the package
+	seen := map[*ssa.Function]bool{}
+	globs := map[*ssa.Global]bool{}
+	var visit func(f *ssa.Function)
+	visit = func(f *ssa.Function) {
+		if f == nil || seen[f] || f.Pkg != scan.Pkg || f.Blocks == nil {
+			return
+		}
+		seen[f] = true
+		for _, b := range f.Blocks {
+			for _, in := range b.Instrs {
+				for _, op := range in.Operands(nil) {
+					if g, ok := (*op).(*ssa.Global); ok && g.Pkg == scan.Pkg && strings.HasSuffix(g.Type().String(), "*regexp.Regexp") {
+						globs[g] = true
+					}
+					if fn, ok := (*op).(*ssa.Function); ok {
+						visit(fn)
+					}
+				}
+				if mc, ok := in.(*ssa.MakeClosure); ok {
+					if fn, ok := mc.Fn.(*ssa.Function); ok {
+						visit(fn)
+					}
+				}
+			}
+		}
+	}
+	visit(scan)
+	var names []string
+	byName := map[string]*ssa.Global{}
+	for g := range globs {
+		names = append(names, g.Name())
+		byName[g.Name()] = g
+	}
+	sort.Strings(names)
+	n := 0
+	for _, name := range names {
+		g := byName[name]
+		pat, ok := regexpPattern(c.L, "stack", name)
+		if !ok {
+			a.und("RX-anchor", name, "the pattern is not a single constant compiled in init", g.Pos())
+			continue
+		}
+		re, err := syntax.Parse(pat, syntax.Perl)
+		if err != nil {
+			a.und("RX-anchor", name, err.Error(), g.Pos())
+			continue
+		}
+		n++
+		begin, end := rxAnchored(re)
+		switch {
+		case begin && end:
+			a.ok("RX-anchor", name, "the pattern describes the whole line (^...$ in every alternative)", g.Pos())
+		case rxAnchorExempt[name] != "" && begin:
+			a.ok("RX-anchor", name, "anchored at the start; "+rxAnchorExempt[name], g.Pos())
+		case !begin:
+			a.bad("RX-anchor", name, "the pattern is not anchored at the start of the line: a line that merely contains a dump line is taken for one", g.Pos())
+		default:
+			a.bad("RX-anchor", name, "the pattern is not anchored at the end of the line: a line with arbitrary text behind the dump line's shape is swallowed into the dump and parsed", g.Pos())
+		}
+	}
+	c.stat("RX", "anchored_patterns", n)
+}
+
+// rxAnchored: does every match of re start at the beginning / end at the end
+// of the text?
+func rxAnchored(re *syntax.Regexp) (begin, end bool) {
+	switch re.Op {
+	case syntax.OpBeginText:
+		return true, false
+	case syntax.OpEndText:
+		return false, true
+	case syntax.OpCapture:
+		return rxAnchored(re.Sub[0])
+	case syntax.OpConcat:
+		if len(re.Sub) == 0 {
+			return false, false
+		}
+		b, _ := rxAnchored(re.Sub[0])
+		_, e := rxAnchored(re.Sub[len(re.Sub)-1])
+		if len(re.Sub) == 1 {
+			return rxAnchored(re.Sub[0])
+		}
+		return b, e
+	case syntax.OpAlternate:
+		begin, end = true, true
+		for _, s := range re.Sub {
+			b, e := rxAnchored(s)
+			begin, end = begin && b, end && e
+		}
+		return
+	}
+	return false, false
 }
